@@ -490,7 +490,15 @@ class OrientCompare(ast.NodeTransformer):
 
 
 
-def inline_bool_temps(fn):
+def _is_path(e):
+    """X[i], X[i][k], X.a[i]: an element read through names and constants only"""
+    if isinstance(e, ast.Subscript) and not isinstance(e.slice, ast.Slice):
+        return (_is_path(e.value) or isinstance(e.value, ast.Name) or (isinstance(e.value, ast.Attribute) and isinstance(e.value.value, ast.Name))) \
+            and isinstance(e.slice, (ast.Name, ast.Constant))
+    return False
+
+
+def inline_bool_temps(fn, paths=False):
     """a local bound exactly once to a test (comparison / and / or / not) and read only afterwards in the same block stands for the test: `c = A and B; if c:` is
     `if A and B:` -- provided nothing the test reads is assigned between the binding and the last use (checked coarsely: no store to any name or attribute the
     test mentions anywhere later in the function)"""
@@ -506,8 +514,8 @@ def inline_bool_temps(fn):
                 continue
             for k, st in enumerate(blk):
                 if isinstance(st, ast.Assign) and len(st.targets) == 1 and isinstance(st.targets[0], ast.Name) and stores.get(st.targets[0].id) == 1 \
-                        and isinstance(st.value, (ast.Compare, ast.BoolOp)) or (isinstance(st, ast.Assign) and len(st.targets) == 1 and isinstance(st.targets[0], ast.Name)
-                                                                               and stores.get(st.targets[0].id) == 1 and isinstance(st.value, ast.UnaryOp) and isinstance(st.value.op, ast.Not)):
+                        and (isinstance(st.value, (ast.Compare, ast.BoolOp)) or (isinstance(st.value, ast.UnaryOp) and isinstance(st.value.op, ast.Not))
+                             or (paths and _is_path(st.value))):
                     name = st.targets[0].id
                     reads = {x.id for x in ast.walk(st.value) if isinstance(x, ast.Name)}
                     attrs = {ast.unparse(x) for x in ast.walk(st.value) if isinstance(x, ast.Attribute)}
@@ -606,7 +614,7 @@ def normal_form(fn, dual=False, drop_self_attrs=(), abstract_slot=False, sort_in
     fn.name = 'F'
     fn.decorator_list = []
     fn = strip_noise(fn)
-    fn = inline_bool_temps(fn)
+    fn = inline_bool_temps(fn, paths=True)      # and elements read into a local (`v = xs[i]`)
     fn = split_ifexp_assign(fn)
     fn = ExpandAugAssign().visit(fn)
     fn = Canon().visit(fn)
